@@ -576,6 +576,102 @@ def _as_load(e: ast.expr) -> ast.expr:
 
 
 # ---------------------------------------------------------------------------
+# partial(self.helper, method=method)  handed on as a callback   is read as the nested closure it stands for
+# ---------------------------------------------------------------------------
+def close_partials(trees: Dict[str, ast.Module], known: Optional[set] = None) -> int:
+    """`functools.partial(self.m, a, k=b)` inside a method, with m a method of the same class that is not a pinned one and the
+    bound arguments names / constants / attribute chains that the enclosing function does not re-assign, becomes a reference to
+    a nested function `m_bound(<remaining parameters>)` whose body is m's with the bound parameters replaced - the form in which
+    a callback that closes over its context is normally written (and in which the rules know it).  Returns the number rewritten."""
+    known = known_functions() if known is None else known
+    done = 0
+    touched = set()
+    for mod, t in trees.items():
+        for cls in [b for b in t.body if isinstance(b, ast.ClassDef)]:
+            methods = {m.name: m for m in cls.body if isinstance(m, ast.FunctionDef)}
+            for f in list(methods.values()):
+                stores: Dict[str, int] = {}
+                for x in ast.walk(f):
+                    if isinstance(x, ast.Name) and isinstance(x.ctx, (ast.Store, ast.Del)):
+                        stores[x.id] = stores.get(x.id, 0) + 1
+
+                def simple(e):
+                    return isinstance(e, ast.Constant) or (isinstance(e, ast.Name) and stores.get(e.id, 0) == 0) or (isinstance(e, ast.Attribute) and _chain(e) and stores.get((_chain_text(e) or "?").split(".")[0], 0) == 0)
+
+                def rewrite(body):
+                    nonlocal done
+                    out = []
+                    for s_ in body:
+                        for fld in ("body", "orelse", "finalbody"):
+                            b = getattr(s_, fld, None)
+                            if isinstance(b, list) and b and isinstance(b[0], ast.stmt) and not isinstance(s_, (ast.FunctionDef, ast.ClassDef)):
+                                setattr(s_, fld, rewrite(b))
+                        for h in getattr(s_, "handlers", []) or []:
+                            h.body = rewrite(h.body)
+                        pre = []
+                        if not isinstance(s_, (ast.FunctionDef, ast.ClassDef, ast.For, ast.While, ast.If, ast.With, ast.Try)):
+                            for c in [x for x in ast.walk(s_) if isinstance(x, ast.Call)]:
+                                fn_ = _chain_text(c.func) if isinstance(c.func, (ast.Name, ast.Attribute)) else None
+                                if fn_ not in ("partial", "functools.partial") or not c.args:
+                                    continue
+                                tgt = c.args[0]
+                                if not (isinstance(tgt, ast.Attribute) and isinstance(tgt.value, ast.Name) and tgt.value.id == "self" and tgt.attr in methods):
+                                    continue
+                                m = methods[tgt.attr]
+                                if f"{mod}.{cls.name}.{m.name}" in known or m is f or m.decorator_list or m.args.vararg or m.args.kwarg:
+                                    continue
+                                ps = [a.arg for a in m.args.posonlyargs + m.args.args]
+                                if not ps or ps[0] != "self":
+                                    continue
+                                ps = ps[1:]
+                                pos, kws = c.args[1:], c.keywords
+                                if any(isinstance(a, ast.Starred) for a in pos) or any(k.arg is None for k in kws) or len(pos) > len(ps):
+                                    continue
+                                bound = dict(zip(ps, pos))
+                                okb = True
+                                for k in kws:
+                                    if k.arg in bound or k.arg not in ps + [a.arg for a in m.args.kwonlyargs]:
+                                        okb = False
+                                    bound[k.arg] = k.value
+                                if not okb or not all(simple(v) for v in bound.values()):
+                                    continue
+                                rest = [p_ for p_ in ps if p_ not in bound]
+                                m_stores = {x.id for x in ast.walk(m) if isinstance(x, ast.Name) and isinstance(x.ctx, (ast.Store, ast.Del))}
+                                if m_stores & set(bound):
+                                    continue  # the helper re-assigns a bound parameter
+                                name = f"{m.name.lstrip('_')}_bound"
+                                if name in stores or any(isinstance(x, ast.Name) and x.id == name for x in ast.walk(f)):
+                                    continue
+                                sub = _Subst({k: v for k, v in bound.items()}, {})
+                                body_ = [sub.visit(copy.deepcopy(b_)) for b_ in m.body if not (isinstance(b_, ast.Expr) and isinstance(b_.value, ast.Constant))]
+                                fd = ast.FunctionDef(name=name, args=ast.arguments(posonlyargs=[], args=[ast.arg(arg=p_) for p_ in rest], kwonlyargs=[], kw_defaults=[], defaults=[]),
+                                                     body=body_ or [ast.Pass()], decorator_list=[], returns=None, type_params=[])
+                                pre.append(fd)
+                                # replace the partial(...) call by the closure's name
+                                class R(ast.NodeTransformer):
+                                    def visit_Call(self, n):
+                                        if n is c:
+                                            return ast.Name(id=name, ctx=ast.Load())
+                                        return self.generic_visit(n)
+                                s_ = R().visit(s_)
+                                stores[name] = 1
+                                done += 1
+                                touched.add(mod)
+                        if pre:
+                            _relocate(pre, s_)
+                            for x in pre + [s_]:
+                                ast.fix_missing_locations(x)
+                        out.extend(pre)
+                        out.append(s_)
+                    return out
+
+                f.body = rewrite(f.body)
+    for mod in touched:
+        renumber(trees[mod])
+    return done
+
+
+# ---------------------------------------------------------------------------
 # records:  m = MonthSummary(peak=self.peaks[i], day=self.days[i]) ; ... m.peak ...   is read as   self.peaks[i]
 # ---------------------------------------------------------------------------
 def propagate_record_fields(trees: Dict[str, ast.Module]) -> int:
@@ -1289,6 +1385,10 @@ def unroll_literal_loops(trees: Dict[str, ast.Module], max_rows: int = 32) -> in
                     touched.add(mod)
                     return ast.copy_location(ast.List(elts=elts, ctx=ast.Load()), n)
 
+            # a generator expression that is unpacked on the spot is consumed completely and in order: the list comprehension
+            for a_ in ast.walk(fn):
+                if isinstance(a_, ast.Assign) and len(a_.targets) == 1 and isinstance(a_.targets[0], (ast.Tuple, ast.List)) and isinstance(a_.value, ast.GeneratorExp):
+                    a_.value = ast.copy_location(ast.ListComp(elt=a_.value.elt, generators=a_.value.generators), a_.value)
             C().visit(fn)
 
             def split(body):
@@ -1515,6 +1615,118 @@ def expand_dispatch_tables(trees: Dict[str, ast.Module]) -> int:
         for x in ast.walk(t):
             if isinstance(x, ast.FunctionDef):
                 do_function(x, mod)
+    for mod in touched:
+        renumber(trees[mod])
+    return done
+
+
+# ---------------------------------------------------------------------------
+# x = TABLE.get(k)  /  x = TABLE[k]   with a literal table   is read as the if / elif chain on k
+# ---------------------------------------------------------------------------
+def expand_value_lookups(trees: Dict[str, ast.Module], max_rows: int = 12) -> int:
+    """`name = TABLE[k]`, `name = TABLE.get(k)` and `name = TABLE.get(k, default)` as a whole statement, with TABLE a dict display
+    of at most `max_rows` entries whose keys and values are names / attribute chains / constants - bound once in the function, or
+    once at module level and nowhere stored into or mutated - and k a name or attribute chain, become
+        if k == K1: name = V1  elif k == K2: name = V2 ...  else: name = default   (else: raise KeyError(k) for TABLE[k]).
+    Returns the number of statements rewritten."""
+    done = 0
+    touched = set()
+
+    def simple(e):
+        return isinstance(e, (ast.Constant, ast.Name)) or (isinstance(e, ast.Attribute) and _chain(e))
+
+    def is_table(v):
+        return isinstance(v, ast.Dict) and 0 < len(v.keys) <= max_rows and all(k is not None and simple(k) for k in v.keys) and all(simple(x) for x in v.values)
+
+    MUT = ("update", "pop", "popitem", "clear", "setdefault", "__setitem__")
+    for mod, t in trees.items():
+        counts: Dict[str, int] = {}
+        for x in ast.walk(t):
+            if isinstance(x, ast.Name) and isinstance(x.ctx, (ast.Store, ast.Del)):
+                counts[x.id] = counts.get(x.id, 0) + 1
+        mutated = set()
+        for x in ast.walk(t):
+            if isinstance(x, ast.Subscript) and isinstance(x.ctx, (ast.Store, ast.Del)) and isinstance(x.value, ast.Name):
+                mutated.add(x.value.id)
+            if isinstance(x, ast.Call) and isinstance(x.func, ast.Attribute) and x.func.attr in MUT and isinstance(x.func.value, ast.Name):
+                mutated.add(x.func.value.id)
+        mod_tables = {b.targets[0].id: b.value for b in t.body if isinstance(b, ast.Assign) and len(b.targets) == 1 and isinstance(b.targets[0], ast.Name)
+                      and is_table(b.value) and counts.get(b.targets[0].id) == 1 and b.targets[0].id not in mutated}
+        for fn in [x for x in ast.walk(t) if isinstance(x, ast.FunctionDef)]:
+            fstores: Dict[str, int] = {}
+            for x in ast.walk(fn):
+                if isinstance(x, ast.Name) and isinstance(x.ctx, (ast.Store, ast.Del)):
+                    fstores[x.id] = fstores.get(x.id, 0) + 1
+            tables = {k: v for k, v in mod_tables.items() if k not in fstores and k not in [a.arg for a in fn.args.args + fn.args.kwonlyargs]}
+            local_line = {}
+            for x in ast.walk(fn):
+                if isinstance(x, ast.Assign) and len(x.targets) == 1 and isinstance(x.targets[0], ast.Name) and is_table(x.value) and fstores.get(x.targets[0].id) == 1 and x.targets[0].id not in mutated:
+                    tables[x.targets[0].id] = x.value
+                    local_line[x.targets[0].id] = x.lineno
+            if not tables:
+                continue
+
+            def membership(test, tname):
+                """(key text, positive?) if test is `k in TABLE` / `k not in TABLE` (TABLE by name or spelled out as the tuple of its keys)"""
+                if isinstance(test, ast.Compare) and len(test.ops) == 1 and isinstance(test.ops[0], (ast.In, ast.NotIn)):
+                    c = test.comparators[0]
+                    keys_txt = [ast.unparse(k) for k in tables[tname].keys]
+                    if (isinstance(c, ast.Name) and c.id == tname) or (isinstance(c, (ast.Tuple, ast.List, ast.Set)) and [ast.unparse(e) for e in c.elts] == keys_txt):
+                        return ast.unparse(test.left), isinstance(test.ops[0], ast.In)
+                return None
+
+            def rewrite(body, guards=frozenset()):
+                nonlocal done
+                out = []
+                guards = set(guards)
+                for s_ in body:
+                    for fld in ("body", "orelse", "finalbody"):
+                        b = getattr(s_, fld, None)
+                        if isinstance(b, list) and b and isinstance(b[0], ast.stmt) and not isinstance(s_, (ast.FunctionDef, ast.ClassDef)):
+                            g2 = set(guards) if not isinstance(s_, (ast.For, ast.While)) else set()
+                            if isinstance(s_, ast.If):
+                                for tn in tables:
+                                    m_ = membership(s_.test, tn)
+                                    if m_ is not None and ((m_[1] and fld == "body") or (not m_[1] and fld == "orelse")):
+                                        g2.add((tn, m_[0]))
+                            setattr(s_, fld, rewrite(b, frozenset(g2)))
+                    for h in getattr(s_, "handlers", []) or []:
+                        h.body = rewrite(h.body)
+                    # if k not in TABLE: <leave>   guards what follows in this block
+                    if isinstance(s_, ast.If) and not s_.orelse and s_.body and isinstance(s_.body[-1], (ast.Return, ast.Raise, ast.Continue, ast.Break)):
+                        for tn in tables:
+                            m_ = membership(s_.test, tn)
+                            if m_ is not None and not m_[1]:
+                                guards.add((tn, m_[0]))
+                    hit = None
+                    if isinstance(s_, ast.Assign) and len(s_.targets) == 1 and isinstance(s_.targets[0], ast.Name):
+                        v = s_.value
+                        if isinstance(v, ast.Subscript) and isinstance(v.value, ast.Name) and v.value.id in tables and simple(v.slice) and not isinstance(v.slice, ast.Constant) \
+                                and (v.value.id, ast.unparse(v.slice)) in guards:
+                            hit = (v.value.id, v.slice, "guarded")
+                        elif isinstance(v, ast.Call) and isinstance(v.func, ast.Attribute) and v.func.attr == "get" and isinstance(v.func.value, ast.Name) and v.func.value.id in tables \
+                                and len(v.args) in (1, 2) and not v.keywords and simple(v.args[0]) and not isinstance(v.args[0], ast.Constant) and (len(v.args) == 1 or simple(v.args[1])):
+                            hit = (v.func.value.id, v.args[0], v.args[1] if len(v.args) == 2 else ast.Constant(value=None))
+                    if hit is not None and local_line.get(hit[0], 0) < s_.lineno and s_.targets[0].id not in {x.id for x in ast.walk(hit[1]) if isinstance(x, ast.Name)}:
+                        tname, key, dflt = hit
+                        tab = tables[tname]
+                        # TABLE[k] is expanded only where a membership test has established that one of the keys matches: no else
+                        chain = None if dflt == "guarded" else ast.Assign(targets=[copy.deepcopy(s_.targets[0])], value=copy.deepcopy(dflt))
+                        for k_, v_ in reversed(list(zip(tab.keys, tab.values))):
+                            chain = ast.If(test=ast.Compare(left=copy.deepcopy(key), ops=[ast.Eq()], comparators=[copy.deepcopy(k_)]),
+                                           body=[ast.Assign(targets=[copy.deepcopy(s_.targets[0])], value=copy.deepcopy(v_))], orelse=[chain] if chain is not None else [])
+                        _relocate([chain], s_)
+                        ast.fix_missing_locations(chain)
+                        out.append(chain)
+                        done += 1
+                        touched.add(mod)
+                        continue
+                    stored_here = {x.id for x in ast.walk(s_) if isinstance(x, ast.Name) and isinstance(x.ctx, (ast.Store, ast.Del))}
+                    guards = {g_ for g_ in guards if not (set(g_[1].replace("[", ".").replace("]", "").split(".")) & stored_here)}
+                    out.append(s_)
+                return out
+
+            fn.body = rewrite(fn.body)
     for mod in touched:
         renumber(trees[mod])
     return done
